@@ -671,6 +671,49 @@ vbi_draw_vt_page_region(vbi_page *pg,
 			case VBI_OVER_BOTTOM:
 				break;
 
+			case VBI_DOUBLE_WIDTH:
+			case VBI_DOUBLE_SIZE:
+			case VBI_DOUBLE_SIZE2:
+				if (1 == count) {
+					/* The right half of this character
+					   lies outside the region. Draw into
+					   a scratch cell and copy the left
+					   half only. */
+					uint8_t cell[TCW * 2 * TCH * 4];
+					unsigned int cell_stride = TCW * 2 * canvas_type;
+					uint8_t *font = NULL;
+					int y;
+
+					if (vbi_is_drcs(unicode))
+						font = pg->drcs[(unicode >> 6) & 0x1F];
+
+					if (font)
+						draw_drcs(canvas_type, cell, cell_stride,
+							  (uint8_t *) &pen, ac->drcs_clut_offs,
+							  font, unicode & 0x3F, ac->size);
+					else if (vbi_is_drcs(unicode))
+						draw_blank(canvas_type, cell, cell_stride,
+							   ((canvas_type == 1) ? pen.pal8[0]: pen.rgba[0]),
+							   TCW, TCH);
+					else
+						draw_char (canvas_type, cell, cell_stride,
+							   (uint8_t *) &pen,
+							   (uint8_t *) wstfont2_bits,
+							   TCPL, TCW, TCH,
+							   unicode_wstfont2 (unicode, ac->italic),
+							   ac->bold,
+							   ac->underline << 9 /* cell row 9 */,
+							   ac->size);
+
+					for (y = 0; y < TCH; ++y)
+						memcpy ((uint8_t *) canvas + y * rowstride,
+							cell + y * cell_stride,
+							TCW * canvas_type);
+					break;
+				}
+
+				/* fall through */
+
 			default:
 				if (vbi_is_drcs(unicode)) {
 					uint8_t *font = pg->drcs[(unicode >> 6) & 0x1F];
